@@ -27,7 +27,7 @@ type History struct {
 func histories(tier string) []History {
 	h := []History{
 		{Name: "converter", Converter: true, Events: []string{"api:import:P1", "drain", "api:addtag:tag/p=cport:1", "api:converters:tag/p=conv", "drain", "api:import:P3", "drain", "api:import:P2", "drain"}},
-		{Name: "tags-imports-merge", Events: []string{"api:addtag:tag/d=cdata:foo", "api:addtag:tag/i=id:1:", "api:color:tag/d=#abcdef", "api:config:on", "api:webhook:http://127.0.0.1:9/hook", "api:import:P1", "drain", "api:import:P2", "drain",
+		{Name: "tags-imports-merge", Events: []string{"api:addtag:tag/d=cdata:foo", "api:addtag:tag/i=id:1:", "api:color:tag/d=#abcdef", "api:config:on", "api:webhook:http://127.0.0.1:9/hook", "api:endpoint:127.0.0.1:9", "api:import:P1", "drain", "api:import:P2", "drain",
 			"api:addtag:mark/m=id:0", "api:markadd:mark/m=1", "api:addtag:tag/r=-tag:d", "drain", "api:import:P3", "drain", "api:deltag:tag/r", "api:rename:mark/m=mark/n", "drain"}},
 		{Name: "merge-overtaken-by-import", Events: []string{"api:import:P1", "step:import", "step:import", "api:import:P2", "step:import", "step:import", "api:import:P3",
 			"step:import", "step:import", "step:merge", "step:merge", "drain", "api:addtag:service/s=sport:53", "drain"}},
@@ -60,7 +60,12 @@ func tagTable(w *svc.World) (map[string]string, string) {
 	}
 	hooks := w.Mgr.ListPcapProcessorWebhooks()
 	sort.Strings(hooks)
-	return t, fmt.Sprintf("config=%+v webhooks=%v", w.Mgr.Config(), hooks)
+	var eps []string
+	for _, e := range w.Mgr.ListPcapOverIPEndpoints() {
+		eps = append(eps, e.Address)
+	}
+	sort.Strings(eps)
+	return t, fmt.Sprintf("config=%+v webhooks=%v endpoints=%v", w.Mgr.Config(), hooks, eps)
 }
 
 func visible(w *svc.World) (map[string]string, error) {
@@ -191,7 +196,28 @@ func parseMarks(b []byte) []mark {
 	return out
 }
 
+// JournalRetries counts journals that had to be recorded again because the recording did not pass
+// its conformance replay.
+var JournalRetries int
+
+// makePlan records the journal of a history.  strace logs the system calls of concurrent threads
+// in the order it sees them, which for two writes racing on one descriptor need not be the order
+// in which the kernel applied them; such a recording fails the conformance replay (it is never
+// used) and the history - which the gates make deterministic - is simply recorded again.
 func makePlan(h History, convBin, scratch string) (*plan, error) {
+	var pl *plan
+	var err error
+	for attempt := 0; attempt < 4; attempt++ {
+		pl, err = makePlanOnce(h, convBin, scratch)
+		if err == nil || !strings.Contains(err.Error(), "journal of ") {
+			return pl, err
+		}
+		JournalRetries++
+	}
+	return pl, err
+}
+
+func makePlanOnce(h History, convBin, scratch string) (*plan, error) {
 	dir := filepath.Join(scratch, "journal-"+h.Name)
 	os.RemoveAll(dir)
 	if err := os.MkdirAll(dir, 0o755); err != nil {
@@ -446,6 +472,18 @@ func (pl *plan) recover(c crashCase, convBin, scratch string, idx int) mc.CaseRe
 			}
 		}
 	}
+	// recovery must be stable: a clean restart right away, without any call in between, shows the
+	// same tags, settings and endpoints (nothing the first start wrote may have dropped them)
+	if err := w.Restart(); err != nil {
+		bad("c12.immediate-second-restart-failed", "%v", err)
+		return res
+	}
+	if !drain() {
+		return res
+	}
+	if t2, c2 := tagTable(w); !mapsEqual(t2, gotTags) || c2 != gotConf {
+		bad("c12.immediate-second-restart.state-changed", "after the first restart tags/settings were %v %s; after a clean restart right away they are %v %s", gotTags, gotConf, t2, c2)
+	}
 	// continuation
 	for _, call := range []string{"import:P4", "addtag:tag/z=cport:1"} {
 		if err := w.ApplyAPI(call); err != nil {
@@ -603,6 +641,7 @@ func Run(tier string) int {
 	cv["histories"] = perHist
 	cv["torn_write_states"] = torn
 	cv["journal_mutations"] = muts
+	cv["journals_recorded_again_after_failed_conformance_replay"] = JournalRetries
 	cv["distinct_outcomes"] = len(outcomes)
 	cv["samples"] = samples
 	cv["exhaustive"] = complete
